@@ -54,6 +54,8 @@ def idx_equal(a, b):
         return True
     if d.is_number:
         return False
+    if d.is_nonzero:
+        return False
     if d.free_symbols and all(s.is_integer for s in d.free_symbols):
         # e.g. i - (n-1): unknown
         return None
@@ -179,6 +181,16 @@ class BlockVec:
         return BlockVec(self.r, list(self.rows))
 
 
+RSYM = Symbol("r_", integer=True, nonnegative=True)
+
+
+class RangeVal:
+    """Element-wise value of a symbolic run of rows: row (offset RSYM) = vec, for 0 <= RSYM < count."""
+
+    def __init__(self, count, vec):
+        self.count, self.vec = count, vec
+
+
 class Struct:
     def __init__(self, name, fields=None):
         self.name = name
@@ -274,6 +286,7 @@ class LoopSummary:
         self.effects = []
         self.locals = {}
         self.inner = []
+        self.post_gen = {}
 
     def writes_to(self, name):
         return [e for e in self.effects if e.target == name]
@@ -301,7 +314,11 @@ class Interp:
         self.assume = []          # extra facts for index guards
         self.return_value = None
         self.decl_depth = {}
+        self.case = None          # {"first": bool, "last": bool}: kind of the symbolic iteration; size guards use "generic n"
+        self.case_log = []
+        self.field_assumptions = {}
         self.snapshots = []
+        self.effects_ranges = []
         self.calls = []           # opaque / noted calls: (callee name, args values, line, loop)
 
     # -- fields -----------------------------------------------------------------
@@ -325,7 +342,7 @@ class Interp:
         if c in ("double",):
             return S(name, real=True)
         if c == "int":
-            return S(name, integer=True)
+            return S(name, integer=True, **self.field_assumptions.get(name, {}))
         if c == "bool":
             return S(name)
         if c == "eigen":
@@ -399,7 +416,8 @@ class Interp:
             if k == "elem":
                 return v.cont.read(tuple(v.key))
             if k == "var":
-                return v.env[v.id]
+                x = v.env[v.id]
+                return self.load(x) if isinstance(x, Ref) else x
             if k == "field":
                 return v.struct.f[v.name]
             if k == "smallelem":
@@ -414,10 +432,13 @@ class Interp:
                 return x
             if k == "rows":   # view of several rows -> BlockVec
                 return BlockVec(v.count, [v.cont.read((v.start + j,)) for j in range(v.count)])
+            if k == "rowrange":
+                return RangeVal(v.count, v.cont.read((v.start + RSYM,)))
             if k == "comp":
-                return v.value
-            if k == "blockcomp":
-                return v.value
+                x = self.load(v.target) if isinstance(v.target, Ref) else v.target
+                if not isinstance(x, Vec):
+                    raise Unsupported("component of non-vector")
+                return Comp(lin=x)
             if k == "structelem":
                 return v.cont.read(v.key)
             raise Unsupported("load of ref kind " + k)
@@ -580,6 +601,14 @@ class Interp:
                 return a * b
             if op == "/":
                 return a / b
+        if isinstance(a, RangeVal) or isinstance(b, RangeVal):
+            if isinstance(a, RangeVal) and isinstance(b, RangeVal):
+                if not is_zero(a.count - b.count):
+                    raise Unsupported("row ranges of different length")
+                return RangeVal(a.count, self.arith(op, a.vec, b.vec, e))
+            if isinstance(a, RangeVal):
+                return RangeVal(a.count, self.arith(op, a.vec, b, e))
+            return RangeVal(b.count, self.arith(op, a, b.vec, e))
         if op in ("+", "-"):
             sign = 1 if op == "+" else -1
             if isinstance(a, Vec) and isinstance(b, Vec):
@@ -968,15 +997,14 @@ class Interp:
         comp_var = self.loop_stack[-1].get("comp_var") if self.loop_stack else None
         if comp_var is None or sp.sympify(j) != comp_var:
             raise Unsupported("coordinate access %s outside a uniform component loop (line %s)" % (pp(e)[:60], e.get("line")))
-        v = self.load(vref) if isinstance(vref, Ref) else vref
-        if not isinstance(v, Vec):
-            raise Unsupported("component of non-vector")
-        return Ref("comp", target=vref, value=Comp(lin=v))
+        return Ref("comp", target=vref)
 
     def row_of(self, obj, i, e):
         v = obj
-        if isinstance(obj, Ref) and obj.kind in ("var", "field"):
-            v = self.load(obj)
+        while isinstance(v, Ref) and v.kind == "var" and isinstance(v.env.get(v.id), Ref):
+            v = v.env[v.id]
+        if isinstance(v, Ref) and v.kind in ("var", "field"):
+            v = self.load(v)
         if isinstance(v, Container) and v.kind == "rows":
             return Ref("row", cont=v, idx=sp.sympify(i), slot=Integer(0))
         if isinstance(v, Ref) and v.kind == "rows":
@@ -1198,8 +1226,11 @@ class Interp:
                             delta.rows[j] if isinstance(delta, BlockVec) else None)
             return
         if k == "rowrange":
-            self.record(r.cont.name, ("range", r.start, r.count), accumulate or "=", v, node)
-            r.cont.bump()
+            if not isinstance(v, RangeVal) or not is_zero(v.count - r.count):
+                raise Unsupported("row range assigned from %s" % type(v).__name__)
+            r.cont.write((sp.expand(r.start + RSYM),), v.vec)
+            self.record(r.cont.name, (sp.expand(r.start + RSYM),), accumulate or "=", v.vec, node)
+            self.effects_ranges.append((r.cont.name, r.start, r.count, v.vec, node.get("line") if isinstance(node, dict) else None))
             return
         if k == "elem":
             r.cont.write(tuple(r.key), sp.sympify(v))
@@ -1284,6 +1315,8 @@ class Interp:
             dec = False
         elif self.branch_oracle:
             dec = self.branch_oracle(s, c, self)
+        if dec is None and self.case is not None:
+            dec = self.case_decide(c)
         if dec is True:
             self.exec(s["then"], env)
             return
@@ -1304,6 +1337,79 @@ class Interp:
             self.guards.append((pp(s["cond"]), False))
             return
         raise Unsupported("undecided branch %s (line %s)" % (pp(s["cond"])[:80], s.get("line")))
+
+    # -- case analysis of index / size guards ---------------------------------------
+    def _generic(self, e):
+        """Truth value of a boolean over integer size symbols when every size is 'large'."""
+        BIG = 1000
+        e = sp.sympify(e)
+        if e in (sp.true, sp.false):
+            return e
+        loopvars = {fr["var"] for fr in self.loop_stack}
+        sizes = [x for x in e.free_symbols if x.is_integer and x not in loopvars]
+        rep = {x: sp.Symbol("G_" + x.name, integer=True, nonnegative=True) + BIG for x in sizes}
+        r = e.xreplace(rep)
+        try:
+            r = sp.simplify(r)
+        except Exception:
+            pass
+        return r
+
+    def case_decide(self, c):
+        loopvars = [fr for fr in self.loop_stack if fr["var"] in c.free_symbols and not fr.get("comp_var")]
+        if not loopvars:
+            size_case = self.case.get("size")
+            if size_case is not None:
+                r = size_case(c)
+                if r in (True, False):
+                    self.case_log.append(("size", str(c), r))
+                    return r
+            r = self._generic(c)
+            if r == sp.true:
+                self.case_log.append(("size-generic", str(c), True))
+                return True
+            if r == sp.false:
+                self.case_log.append(("size-generic", str(c), False))
+                return False
+            return None
+        fr = loopvars[-1]
+        v = fr["var"]
+        L = fr["summary"]
+        if L.hi is None:
+            return None
+        step = L.step
+        first = L.lo
+        if L.cond_op == "<":
+            last = L.hi - 1
+        elif L.cond_op == "<=":
+            last = L.hi
+        elif L.cond_op == ">=":
+            last = L.hi
+        elif L.cond_op == ">":
+            last = L.hi + 1
+        else:
+            return None
+        def at(val):
+            return self._generic(c.subs(v, val))
+        tf, ts, tl, tp = at(first), at(first + step), at(last), at(last - step)
+        pat = (tf, ts, tp, tl)
+        T, Fa = sp.true, sp.false
+        if pat == (T, Fa, Fa, Fa):
+            r = self.case["first"]
+        elif pat == (Fa, T, T, T):
+            r = not self.case["first"]
+        elif pat == (Fa, Fa, Fa, T):
+            r = self.case["last"]
+        elif pat == (T, T, T, Fa):
+            r = not self.case["last"]
+        elif pat == (T, T, T, T):
+            r = True
+        elif pat == (Fa, Fa, Fa, Fa):
+            r = False
+        else:
+            return None
+        self.case_log.append(("iter", str(c), r))
+        return r
 
     def loop_header(self, s, env):
         init, cond, inc = s.get("init"), s.get("cond"), s.get("inc")
@@ -1338,6 +1444,17 @@ class Interp:
                 hi = None
         summ.hi = hi
         summ.cond_op = cond["op"] if cond and cond.get("k") == "bin" else None
+        if hi is not None and summ.cond_op in ("<", "<=", ">", ">="):
+            try:
+                c0 = self.compare(summ.cond_op, lo, hi)
+            except Exception:
+                c0 = None
+            if c0 == sp.false:
+                return  # empty range: no iteration at all
+            if self.case is not None and self.case.get("size") is not None and c0 not in (sp.true, sp.false):
+                r0 = self.case["size"](c0)
+                if r0 is False:
+                    return
         summ.is_comp = is_comp
         summ.name = name
         if is_comp:
@@ -1366,14 +1483,42 @@ class Interp:
         # containers written in the loop are havoced for subsequent code (dependencies between
         # loops are re-established by the rules through templates, not by unrolling)
         for eff in summ.effects:
-            self.havoc_after_loop(eff, env)
+            self.havoc_after_loop(eff, env, summ)
         # scalar locals assigned in the loop body are loop-carried: not supported unless accumulators
         return
 
-    def havoc_after_loop(self, eff, env):
+    def havoc_after_loop(self, eff, env, summ=None):
         cont = self.find_container(eff.target, env)
         if cont is not None and cont.store:
             cont.bump()
+            if summ is not None:
+                summ.post_gen[eff.target] = cont.gen
+
+    def local_defs(self):
+        """Pointwise definitions made by pure map loops: tag 'name#gen' -> (loop var, value, lo, hi)."""
+        out = {}
+        for L in self.loops:
+            for name, gen in L.post_gen.items():
+                effs = [e for e in L.effects if e.target == name]
+                if len(effs) == 1 and effs[0].op == "=" and len(effs[0].key) == 1 and effs[0].key[0] == L.var and not effs[0].guards:
+                    out["%s#%d" % (name, gen)] = (L.var, effs[0].value, L.lo, L.hi)
+        return out
+
+    def expand_local(self, v, defs=None):
+        defs = defs if defs is not None else self.local_defs()
+        if isinstance(v, Vec):
+            out = Vec()
+            for a, c in v.t.items():
+                if a[0] in defs and len(a) == 2:
+                    var, val, lo, hi = defs[a[0]]
+                    if isinstance(val, Vec):
+                        sub = Vec({tuple(x.subs(var, a[1]) if hasattr(x, "subs") else x for x in b): (cb.subs(var, a[1]) if hasattr(cb, "subs") else cb)
+                                   for b, cb in val.t.items()})
+                        out = out.add(self.expand_local(sub, defs).scale(c))
+                        continue
+                out = out.add(Vec({a: c}))
+            return out
+        return v
 
     def all_containers(self, env):
         out = []
